@@ -20,6 +20,7 @@ ASSUMPTIONS = [
 ]
 TRUSTED = ["stdlib argparse option lexing"]
 EXHAUSTIVE = {"quick": False, "thorough": False}
+THOROUGH_ROUNDS = 3   # thorough tier: this many generator passes with derived PRNG states (vcheck)
 
 TRUE_W = ["yes", "true", "t", "y", "1"]
 FALSE_W = ["no", "false", "f", "n", "0"]
